@@ -1,17 +1,18 @@
 """C06 — fan-out never lets one consumer's mutation reach another consumer."""
+import os
 import vlib
 
 
 class P(vlib.Prop):
     pid = "C06"
-    coq_dirs = ["Common", "C06"]
+    coq_dirs = ["Common", "C06", "Generated"]
     coq_targets = ["C06/Properties.vo", "C06/Witness.vo", "C06/Harness.vo"]
     properties_module = "C06.Properties"
     properties_file = "C06/Properties.v"
     instance_obligations = []
     harness_module = "C06.Harness"
     case_type = "vcase"
-    shard = 150
+    shard = 220
     harnesses = [
         vlib.Harness("fanout", "internal/fanoutconsumer", ".", {"zz_verif_c06_test.go": "C06/fanout_test.go"},
                      "^TestVerifC06(Logs|Metrics|Traces|Profiles)$", "fanoutconsumer"),
@@ -30,7 +31,8 @@ class P(vlib.Prop):
             "graph: real graphs built by service/internal/graph.Build from generated pipeline trees (processor and "
             "exporter capability vectors, same-signal connectors feeding 1..3 further pipelines), advertised "
             "MutatesData of every pipeline and of the consumer handed to the receiver compared with the model; one payload "
-            "pushed through each built graph with marker-writing mutators (direct oracle). "
+            "pushed through each built graph with marker-writing mutators (direct oracle) and, as a second case per graph, the "
+            "consumer tree with every component's arrival (cell, read-only, markers) and final markers compared with TreeModel.v. "
             "router: connector.NewXRouter over 1..3 pipelines (every capability vector, every selection of length 1..3, "
             "repetitions included) and random larger ones: capability of Consumer(ids...) and of the router, invocation order. "
             "A fan-out case is non-trivial when it has >= 2 consumers or a mutating one; a graph case when the "
@@ -38,10 +40,18 @@ class P(vlib.Prop):
             "distinct = distinct case terms.")
     trusted_base = [
         "Coq 8.16.1 kernel + vm_compute (coqc); no axioms (Print Assumptions: closed under the global context)",
-        "hand-written model coq/C06/Model.v of NewX / Capabilities / ConsumeX, tied to each of the four Go files by its own correspondence function",
+        "translator T1 (tools/go2coq): xConsumer.Capabilities x4, capabilityconsumer wrapper method sets",
+        "hand-written model coq/C06/Model.v + TreeModel.v of NewX / Capabilities / ConsumeX, tied to each of the four Go files by its own correspondence function",
         "the harness's abstraction of a payload to the list of its top-level entry markers (the direct oracle compares full protobuf encodings instead)",
         "Go harnesses harness/C06/*.go + go test -overlay; Go toolchain",
     ]
+    def translate(self, ctx):
+        # translator T1: the four xConsumer.Capabilities methods and the capabilityconsumer wrappers' method sets are
+        # re-read from the current source on every run; coq/C06/Translated.v proves the model equal to them
+        d = os.path.join(vlib.VERIF, "props", "C06")
+        vlib.go2coq(ctx, "internal/fanoutconsumer", os.path.join(d, "t1_fanout.json"), "C06FanCap")
+        vlib.go2coq(ctx, "service", os.path.join(d, "t1_capwrap.json"), "C06CapWrap")
+
     assumptions = [
         "cloneX = NewX + CopyTo yields a payload equal to and sharing nothing with its source (deep-copy correctness is property C07; the direct oracle re-checks it on every generated payload)",
         "a consumer that does not declare MutatesData and is alone on a mutable payload may still write it (nobody else sees it); consumers touch only the payload they were given",
